@@ -33,7 +33,7 @@ func (c06) Describe() engine.Info {
 	return engine.Info{
 		Rule: "class timer-hot: timer at its fastest rate with TMA near FF, writes and reads of DIV/TIMA/TMA/TAC/IF 1..5 cycles apart so that writes land in every cycle of the overflow/reload sequence; class ie-dispatch: the CPU loops with the master enable set while IE and IF are written and read (requests are dispatched in between): IE stays plain memory, IF keeps its unused bits; class history: cartridge (ROM-only/MBC1/MBC2/MBC3/MBC5) + 100..1500 reads and writes with address classes weighted so that every I/O register FF00-FF7F, every region boundary +-1 (8000, A000, C000, DE00, E000, FE00, FEA0, FF00, FF80, FFFF) and every region are hit, 0..3 cycles apart with occasional long gaps; sub-classes lcd-off (LCD switched off first and kept off: VRAM and OAM are judged) and lcd-any. Class sweep: every address of a 2048-address chunk (index-enumerated over the whole 64 KiB) gets one write and an immediate read-back. After every write the address and its mirror are read back; every 200 operations and at the end all 65,536 addresses are compared. " +
 			"Oracle: reference memory map with per-register write masks, unused bits reading 1, unmapped I/O reading FF, echo both ways, FEA0-FEFF = 00, reference timer for DIV/TIMA/TMA/TAC, LY/STAT mode only judged with the LCD off (C13 otherwise), sound registers left to C18. Signature = (address class, operation, LCD on, value class)." +
-			" A request bit of IF that is set (written, or seen set) must stay set until written or dispatched. Class dma-hot: transfers out of work RAM while the guest stores into the bytes being fetched and reads them back; FF46 rewritten at distances around the length of a transfer and read back.",
+			" A request bit of IF that is set (written, or seen set) must stay set until written or dispatched. Class dma-hot: transfers out of work RAM while the guest stores into the bytes being fetched and reads them back; FF46 rewritten at distances around the length of a transfer and read back. dma-hot also transfers out of video memory (LCD off).",
 		Assumptions:    []string{"OBP0/OBP1 bits 0-1 are accepted either way (unused by the hardware)", "after an OAM DMA the model takes over the resulting OAM contents (C16 judges them)", "VRAM/OAM are judged only while the LCD has been off since their last resynchronisation", "no buttons are held"},
 		RequiredProbes: []string{"ie_read_while_dispatching", "timer_reload_cycle_write", "full_sweeps", "echo_checked", "unmapped_io_checked", "div_written", "ly_written", "dma_register_written", "vram_oam_checked_lcd_off"},
 		RealComponents: realComponents, StubComponents: stubComponents,
